@@ -264,6 +264,19 @@ def run_case(case):
                     raise Violation('C08:gradient-outside-support', 'gradient_logpdf at %r (log density -inf) is %r, expected 0; %s' % (O[r].tolist(), g.tolist(), ctx))
                 labels.append('gradient-outside-checked')
                 break
+    # a batch of points (interior, boundary and outside rows mixed) gives the same gradients as the rows one at a time
+    mixed = np.vstack([X[:2], O[:2], B[:1]])
+    with np.errstate(all='ignore'):
+        with must_not_raise(P, 'batched gradient_logpdf; ' + ctx):
+            gb = np.asarray(prior.gradient_logpdf(mixed if dim > 1 else mixed[:, 0]))
+            rows = [np.reshape(prior.gradient_logpdf(r_ if dim > 1 else r_[0]), -1) for r_ in mixed]
+    gb2 = np.reshape(gb, (len(mixed), dim)) if gb.size == len(mixed) * dim else None
+    if gb2 is None:
+        raise Violation('C08:gradient-batch-shape', 'gradient_logpdf of %d points in %d dimensions has shape %r; %s' % (len(mixed), dim, gb.shape, ctx))
+    for r in range(len(mixed)):
+        if not np.allclose(gb2[r], rows[r], rtol=1e-9, atol=1e-12, equal_nan=True):
+            raise Violation('C08:gradient-batch-differs-from-rows', 'row %d (%r) of a batched gradient_logpdf is %r, the same point alone gives %r (batch %r); %s'
+                            % (r, mixed[r].tolist(), gb2[r].tolist(), rows[r].tolist(), mixed.tolist(), ctx))
     hier = any(a[0] == 'p' for nd in nodes if nd['name'] in names for a in nd['args'])
     if hier:
         labels.append('hierarchical')
